@@ -34,6 +34,9 @@ type C06Case struct {
 	// ordered destination whose first clause (cap 0, so it receives nothing) holds other
 	// allotments: 1 = directly, 2 = one level deeper, behind a clause that absorbs everything
 	Decoy int `json:"decoy,omitempty"`
+	// SameVar: clauses written through variables that carry the same portion text share one
+	// variable (the same variable in several clauses of one allotment)
+	SameVar bool `json:"samevar,omitempty"`
 }
 
 func (c *C06Case) build() (*gen.ExecCase, []string) {
@@ -45,8 +48,19 @@ func (c *C06Case) build() (*gen.ExecCase, []string) {
 			allots = append(allots, gen.Allot{Kind: gen.ARemaining})
 		case i < len(c.AsVars) && c.AsVars[i]:
 			name := fmt.Sprintf("p%d", i)
-			ec.Script.Vars = append(ec.Script.Vars, gen.VarDecl{Type: "portion", Name: name})
-			ec.Vars[name] = p
+			shared := false
+			if c.SameVar {
+				for j := 0; j < i; j++ {
+					if j < len(c.AsVars) && c.AsVars[j] && c.Portions[j] == p {
+						name, shared = fmt.Sprintf("p%d", j), true
+						break
+					}
+				}
+			}
+			if !shared {
+				ec.Script.Vars = append(ec.Script.Vars, gen.VarDecl{Type: "portion", Name: name})
+				ec.Vars[name] = p
+			}
 			allots = append(allots, gen.Allot{Kind: gen.AVar, Text: name})
 		default:
 			allots = append(allots, gen.Allot{Kind: gen.ALit, Text: p})
@@ -119,7 +133,9 @@ func (c *C06Case) build() (*gen.ExecCase, []string) {
 			if p == "remaining" {
 				hasRemaining = true
 			} else if i < len(c.AsVars) && c.AsVars[i] {
-				pv = append(pv, fmt.Sprintf("p%d", i))
+				if _, declared := ec.Vars[fmt.Sprintf("p%d", i)]; declared {
+					pv = append(pv, fmt.Sprintf("p%d", i))
+				}
 			}
 		}
 		for i, name := range pv {
@@ -222,7 +238,7 @@ func enumC06(tier string, shard, nshards int, visit func(any) bool) (string, boo
 							if idx%nshards != shard {
 								continue
 							}
-							c := &C06Case{Portions: append([]string{}, ps...), AsVars: append([]bool{}, asv...), Side: side, Total: fmt.Sprint(x), Twice: mode == 3 && x%2 == 1, Warm: mode == 3 && x%3 == 0}
+							c := &C06Case{Portions: append([]string{}, ps...), AsVars: append([]bool{}, asv...), Side: side, Total: fmt.Sprint(x), Twice: mode == 3 && x%2 == 1, Warm: mode == 3 && x%3 == 0, SameVar: mode == 3 && x%2 == 0}
 							if !visit(c) {
 								ok = false
 								return
@@ -358,6 +374,7 @@ func genC06(t *rapid.T, tier string) any {
 	}
 	c.Twice = gen.Chance(t, "twice", 25)
 	c.Warm = gen.Chance(t, "warm", 30)
+	c.SameVar = gen.Chance(t, "samevar", 40)
 	if gen.Chance(t, "decoy", 25) {
 		c.Decoy = 1 + gen.Uniform(t, "decoy.kind", 2)
 	}
